@@ -27,6 +27,12 @@ T = {
  "C09": (True, "E2", "exhaustive enumeration of small directed multigraphs x output node x container on the real Processor with instrumented nodes, against an independent reachability / in-edge-multiset / topological-order oracle",
          "All multigraphs (multiplicity 0..2, self-loops included) on <=3 nodes, all digraphs on 4 nodes (thorough: all loop-free digraphs on 5), every output node, Graph / StableGraph / StableGraph with four vacancy patterns, two consecutive process calls on a processor reused across the enumeration; sources()/sinks() on every graph.",
          "Node counts above 4 (5 in thorough) are not explored; random larger graphs are outside this family. Trusted: rustc/LLVM, petgraph, identification of inputs by buffer address.", "DESIGN.md §4 C09"),
+ "C01": (True, "E2", "exhaustive enumeration of source values (complete domains up to 32 bit, documented lattices for 48/64 bit) for all 132 format pairs on the real conversion functions against an i128 amplitude-rescale reference, in two build profiles",
+         "88 (thorough) ordered pairs are swept over every value of the source format through conv::<src>::to_<dst>, to_sample and from_sample; 48/64-bit sources over all 2^16 (quick) / 2^32 (thorough) top-bit patterns under several low-bit fills plus boundaries; order preservation, widening round trip and the via-intermediate law (1100+ triples) asserted directly; a second build with overflow checks turns any arithmetic overflow into a violation.",
+         "48/64-bit sources are not enumerated completely (2^48..2^64 values); that the low bits cannot matter is only sampled structurally. Trusted: rustc/LLVM, i128 reference arithmetic (unit-tested against hand values).", "DESIGN.md §4 C01"),
+ "C02": (True, "E2", "exhaustive enumeration of integer values and of f32 bit patterns (complete where feasible, documented lattices for f64 / 48 / 64 bit) on the real conversions against a bit-level round-to-nearest-even / exact-truncation reference",
+         "Every value of the <=24-bit (thorough: <=32-bit) integer formats to f32/f64; every f32 in [-1,1) (thorough) to all 12 integer formats; every f32 to f64; all rounding decision points of f64->f32 around every enumerated f32; truncation boundaries and the inverse law for every integer value; lattices for f64 sources and 48/64-bit integers.",
+         "f64 and 48/64-bit domains are covered on lattices aimed at rounding/truncation boundaries. Inputs outside [-1,1) are not fed to float->int. Trusted: rustc/LLVM, the integer RNE reference (cross-checked against hardware casts in unit tests).", "DESIGN.md §4 C02"),
 }
 ALL = ["C%02d" % i for i in range(1, 21)]
 
